@@ -721,6 +721,9 @@ fn refusals<C: Suite>(o: &mut Outcome, tag: &str, ctx: &str, node: &Node<C>, see
         match refresh_dkg::<C>(&legacy, &members, &format!("legacy:{seed}"), t) {
             Ok(nd) => {
                 o.count("legacy_refreshes", 1);
+                if nd.pkp.min_signers() != Some(t) {
+                    o.fail(format!("{tag}/refreshed-public-package-threshold"), format!("{ctx}: the public key package refreshed from a legacy package records threshold {:?}, the key packages {t}", nd.pkp.min_signers()));
+                }
                 let vk0 = *node.pkp.verifying_key();
                 check_links::<C>(o, tag, "dkg-refresh-from-legacy-package", ctx, &nd, &vk0, false);
             }
